@@ -634,22 +634,91 @@ class Verifier:
                      "model": model_txt, "note": note, "strategy": strat}
 
     def _solve(self, out):
+        """Every obligation (all its paths) is solved in a forked child of its own, at most VERIF_INNER at a time,
+        under a wall-clock deadline: z3 does not always honour its own timeout (a tactic can spin for an hour), and
+        a hung query must end as `undecided`, never as a hung check."""
+        import pickle
+        import select
+        import signal
         groups = {}
         for ob in self.obls:
             groups.setdefault(ob.oid, []).append(ob)
         self._groups = groups
-        inner = int(os.environ.get("VERIF_INNER", "1"))
-        if inner > 1 and len(groups) >= 8:
-            # obligations are solved by forked children that inherit the generated VCs
-            global _SOLVER_SELF
-            _SOLVER_SELF = self
-            import multiprocessing as mp
-            with mp.get_context("fork").Pool(inner) as pool:
-                for oid, res in pool.imap_unordered(_solve_group_entry, list(groups), chunksize=1):
-                    out["results"][oid] = res
-        else:
-            for oid in groups:
-                out["results"][oid] = self._solve_group(oid)[1]
+        inner = max(1, int(os.environ.get("VERIF_INNER", "1")))
+        only = getattr(self, "only", None)  # second attempt: just the obligations that failed the first time
+        pending = [oid for oid in groups if only is None or oid in only]
+        running = {}  # pid -> (oid, read fd, start, deadline seconds)
+        full_budget = self.timeout_ms
+        failed = [0]
+
+        def finish(pid, oid, res):
+            running.pop(pid, None)
+            out["results"][oid] = res
+            if res["status"] != "discharged" and "canary_" not in oid:
+                failed[0] += 1
+                if failed[0] == 3:
+                    # a function with three undischarged obligations is not going to verify: the rest get a short budget
+                    # (what is provable quickly is still proved), and after ten the remainder is not attempted
+                    self.timeout_ms = max(1000, full_budget // 8)
+
+        while pending or running:
+            if failed[0] >= 10 and pending:
+                for oid in pending:
+                    out["results"][oid] = {"status": "undecided", "ms": 0.0, "paths": len(groups[oid]), "backend": "z3-%s" % z3.get_version_string(), "model": None,
+                                           "note": "not attempted: 10 obligations of this function are already undischarged", "strategy": None}
+                pending = []
+                continue
+            while pending and len(running) < inner:
+                oid = pending.pop(0)
+                T = self.timeout_ms / 1000.0
+                rfd, wfd = os.pipe()
+                pid = os.fork()
+                if pid == 0:
+                    os.close(rfd)
+                    try:
+                        data = pickle.dumps(self._solve_group(oid)[1])
+                    except BaseException as e:  # noqa
+                        data = pickle.dumps({"status": "undecided", "ms": 0.0, "paths": len(groups[oid]), "backend": "z3", "model": None,
+                                             "note": "internal error in the solver process: %s" % e, "strategy": None})
+                    try:
+                        with os.fdopen(wfd, "wb") as f:
+                            f.write(data)
+                    finally:
+                        os._exit(0)
+                os.close(wfd)
+                # one path may run through the whole portfolio (about 12 budgets); the others are discharged quickly
+                running[pid] = (oid, rfd, time.time(), 14 * T + 4 * len(groups[oid]) + 20)
+            fds = {v[1]: pid for pid, v in running.items()}
+            ready, _, _ = select.select(list(fds), [], [], 0.5)
+            for rfd in ready:
+                pid = fds[rfd]
+                oid = running[pid][0]
+                chunks = []
+                while True:
+                    c = os.read(rfd, 1 << 16)
+                    if not c:
+                        break
+                    chunks.append(c)
+                os.close(rfd)
+                os.waitpid(pid, 0)
+                try:
+                    res = pickle.loads(b"".join(chunks))
+                except Exception as e:
+                    res = {"status": "undecided", "ms": 0.0, "paths": len(groups[oid]), "backend": "z3", "model": None,
+                           "note": "solver process died: %s" % e, "strategy": None}
+                finish(pid, oid, res)
+            now = time.time()
+            for pid, (oid, rfd, t0, dl) in list(running.items()):
+                if now - t0 > dl:
+                    try:
+                        os.kill(pid, signal.SIGKILL)
+                        os.waitpid(pid, 0)
+                    except OSError:
+                        pass
+                    os.close(rfd)
+                    finish(pid, oid, {"status": "undecided", "ms": round((now - t0) * 1000, 1), "paths": len(groups[oid]), "backend": "z3-%s" % z3.get_version_string(),
+                                      "model": None, "note": "wall-clock limit (%.0fs): the solver did not return" % dl, "strategy": None})
+        self.timeout_ms = full_budget
 
 
 _SOLVER_SELF = None
